@@ -1,6 +1,7 @@
 package main
 
 import (
+	"sync/atomic"
 	"context"
 	"encoding/binary"
 	"errors"
@@ -158,8 +159,16 @@ func (d *FakeDocker) ContainerList(_ context.Context, o apicontainer.ListOptions
 }
 
 // schedule releases the blocked ContainerLogs calls of one round in the prescribed order.
+// unschedulable counts, per process, the rounds whose calls never all arrived: after a few of them the wait is cut short
+// (a change that opens the logs in batches would otherwise cost five seconds per forced order)
+var unschedulable int32
+
 func (d *FakeDocker) schedule(round, n int) {
-	deadline := time.Now().Add(5 * time.Second)
+	wait := 5 * time.Second
+	if atomic.LoadInt32(&unschedulable) >= 3 {
+		wait = 300 * time.Millisecond
+	}
+	deadline := time.Now().Add(wait)
 	for {
 		d.mu.Lock()
 		got := d.arrivedN
@@ -168,9 +177,10 @@ func (d *FakeDocker) schedule(round, n int) {
 			break
 		}
 		if time.Now().After(deadline) {
+			atomic.AddInt32(&unschedulable, 1)
 			d.mu.Lock()
 			d.hang = true
-			// release everything so the run can finish; the scenario is marked as not schedulable
+			// release everything so the run can finish (later arrivals are not gated any more); the scenario is marked as not schedulable
 			for _, ch := range d.arrived {
 				select {
 				case <-ch:
@@ -233,7 +243,7 @@ func (d *FakeDocker) ContainerLogs(_ context.Context, id string, o apicontainer.
 	d.ev("ContainerLogs", F{"ctr": ci, "round": round, "since": o.Since, "until": o.Until, "sinceN": num(o.Since), "untilN": num(o.Until), "stdout": o.ShowStdout,
 		"stderr": o.ShowStderr, "timestamps": o.Timestamps, "tail": o.Tail, "follow": o.Follow, "details": o.Details})
 	var gate chan struct{}
-	if d.gated && d.arrived != nil && round <= len(d.expect) && d.expect[round-1] > 1 {
+	if d.gated && !d.hang && d.arrived != nil && round <= len(d.expect) && d.expect[round-1] > 1 {
 		gate = make(chan struct{})
 		d.arrived[ci] = gate
 		d.arrivedN++
